@@ -1,5 +1,5 @@
 //! FastLanes arm: BitPacking::unchecked_pack / unchecked_unpack for u8/u16/u32/u64, every width 0..=T.
-use crate::common::{clist, cu64s};
+use crate::common::{clist, cvals};
 use hxlib::util::{catch, coq, Args, Rng, Sink, Stream};
 use lance_bitpacking::BitPacking;
 use serde_json::json;
@@ -114,16 +114,16 @@ fn values(rng: &mut Rng, pat: &str, t: usize, w: usize) -> Vec<u64> {
         .collect()
 }
 
-fn outcome_list(r: &Result<Vec<u64>, bool>) -> String {
-    coq::outcome(&r.as_ref().map(|v| cu64s(v)).map_err(|e| *e))
+fn outcome_list(t: usize, r: &Result<Vec<u64>, bool>) -> String {
+    coq::outcome(&r.as_ref().map(|v| cvals(t, v)).map_err(|e| *e))
 }
 
 pub fn run(args: &Args, rng: &mut Rng, sink: &mut Sink) {
     let types = [8usize, 16, 32, 64];
 
     // ---- pack then unpack, all (T, W); recorded: packed words + sparse difference unpacked vs input
-    let mut s = Stream::new("fl_rt", REQ, "chk_fl_roundtrip", "N * N * list N * N", "list N * list (N * N)");
-    s.shard = 24;
+    let mut s = Stream::new("fl_rt", REQ, "chk_fl_roundtrip", "N * N * list PrimInt63.int * N", "list PrimInt63.int * list (N * N)");
+    s.shard = 62;
     let per_pair = args.vol(2, 10);
     let mut pat_rot = 0usize;
     for &t in &types {
@@ -172,8 +172,8 @@ pub fn run(args: &Args, rng: &mut Rng, sink: &mut Sink) {
                 sink.count(&format!("fl_rt:{pat}"));
                 sink.nontrivial(&format!("flrt{t}/{w}/{pat}/{k}"));
                 s.push(
-                    format!("({}, {}, {}, {})", t, w, cu64s(&vals), fill),
-                    format!("({}, {})", cu64s(&packed), clist(diffs)),
+                    format!("({}, {}, {}, {})", t, w, cvals(t, &vals), fill),
+                    format!("({}, {})", cvals(t, &packed), clist(diffs)),
                     case,
                 );
             }
@@ -182,8 +182,8 @@ pub fn run(args: &Args, rng: &mut Rng, sink: &mut Sink) {
     sink.add(s);
 
     // ---- unpack of arbitrary packed words (every word array is the image of some values), then re-pack
-    let mut s = Stream::new("fl_unpack", REQ, "chk_fl_unpack", "N * N * list N * (N * N)", "outcome (list N)");
-    s.shard = 24;
+    let mut s = Stream::new("fl_unpack", REQ, "chk_fl_unpack", "N * N * list PrimInt63.int * (N * N)", "outcome (list PrimInt63.int)");
+    s.shard = 60;
     for &t in &types {
         for w in 0..=t {
             if !args.thorough() && !(w <= 2 || w + 2 >= t || rng.chance(1, 3)) {
@@ -209,15 +209,15 @@ pub fn run(args: &Args, rng: &mut Rng, sink: &mut Sink) {
             }
             sink.count(&format!("fl_unpack:u{t}"));
             sink.nontrivial(&format!("flun{t}/{w}"));
-            s.push(format!("({}, {}, {}, (1024, {}))", t, w, cu64s(&packed), fill), outcome_list(&unp), case);
+            s.push(format!("({}, {}, {}, (1024, {}))", t, w, cvals(t, &packed), fill), outcome_list(t, &unp), case);
         }
     }
     sink.add(s);
 
     // ---- pack of values that are NOT masked to the width (the kernel masks them), and calls that break
     //      the documented contract (debug_assert! -> panic in this debug build)
-    let mut s = Stream::new("fl_pack", REQ, "chk_fl_pack", "N * N * list N * (N * N)", "outcome (list N)");
-    s.shard = 24;
+    let mut s = Stream::new("fl_pack", REQ, "chk_fl_pack", "N * N * list PrimInt63.int * (N * N)", "outcome (list PrimInt63.int)");
+    s.shard = 60;
     for &t in &types {
         let n = args.vol(3, 3 * t);
         for _ in 0..n {
@@ -242,7 +242,7 @@ pub fn run(args: &Args, rng: &mut Rng, sink: &mut Sink) {
             }
             sink.count("fl_pack:unmasked");
             sink.nontrivial(&format!("flpk{t}/{w}/{}", vals[0]));
-            s.push(format!("({}, {}, {}, ({}, {}))", t, w, cu64s(&vals), plen, fill), outcome_list(&packed), case);
+            s.push(format!("({}, {}, {}, ({}, {}))", t, w, cvals(t, &vals), plen, fill), outcome_list(t, &packed), case);
         }
         if cfg!(debug_assertions) {
             // contract violations: wrong output length, wrong input length, width > T
@@ -261,8 +261,8 @@ pub fn run(args: &Args, rng: &mut Rng, sink: &mut Sink) {
                 sink.count("fl_pack:contract-violation");
                 sink.nontrivial(&format!("flpkv{t}/{w}/{kind}"));
                 s.push(
-                    format!("({}, {}, {}, ({}, 0))", t, w, cu64s(&v), olen),
-                    outcome_list(&r),
+                    format!("({}, {}, {}, ({}, 0))", t, w, cvals(t, &v), olen),
+                    outcome_list(t, &r),
                     json!({"type_bits": t, "width": w, "kind": kind, "out_len": olen, "in_len": v.len(), "panicked": r.is_err()}),
                 );
                 // same for unpack
@@ -272,8 +272,8 @@ pub fn run(args: &Args, rng: &mut Rng, sink: &mut Sink) {
     sink.add(s);
 
     if cfg!(debug_assertions) {
-        let mut s = Stream::new("fl_unpack_contract", REQ, "chk_fl_unpack", "N * N * list N * (N * N)", "outcome (list N)");
-        s.shard = 24;
+        let mut s = Stream::new("fl_unpack_contract", REQ, "chk_fl_unpack", "N * N * list PrimInt63.int * (N * N)", "outcome (list PrimInt63.int)");
+        s.shard = 60;
         for &t in &types {
             let w = rng.range(1, t as u64) as usize;
             let plen = 1024 * w / t;
@@ -290,8 +290,8 @@ pub fn run(args: &Args, rng: &mut Rng, sink: &mut Sink) {
                 sink.count("fl_unpack:contract-violation");
                 sink.nontrivial(&format!("flunv{t}/{w}/{kind}"));
                 s.push(
-                    format!("({}, {}, {}, ({}, 0))", t, w, cu64s(&v), olen),
-                    outcome_list(&r),
+                    format!("({}, {}, {}, ({}, 0))", t, w, cvals(t, &v), olen),
+                    outcome_list(t, &r),
                     json!({"type_bits": t, "width": w, "kind": kind, "out_len": olen, "in_len": v.len(), "panicked": r.is_err()}),
                 );
             }
